@@ -145,6 +145,32 @@ def gen_k50_interleaved(rng, n):
     return out, meta
 
 
+def gen_k50_resize_chain(rng, n):
+    """a quantifier with a free variable whose group gains an instance between its upward and its downward call (the
+    group's neuron is resized inside downward), followed by several NEW groups and further upward/downward calls: every
+    grounding has to keep its own neuron"""
+    out, meta = [], []
+    for _ in range(n):
+        kb = [[0, [], [], 2, list(gen_fol.DEFP), []], [1, [0], [[0, 1]], 2, list(gen_fol.DEFP), [[0, 1]]]]
+        if rng.random() < 0.3:
+            kb = kb[:1] + [[2, [0, 0], [[0, 1], [0, 1]], 2, [F(1), F(1), [F(1), F(1)], 1], [[0, 1], [0, 1]]]]
+        q = [rng.choice([0, 0, 1]), 1, [0], rng.choice([0, 0, 2]), rng.choice([OPEN, OPEN, AXIOM]), [0, 1]]   # binds y, free x
+        fact = lambda: rng.choice([[F(1), F(1)], [F(0), F(0)], [F(0), F(1)], [F(1), F(1)], [F(0), F(0)], gen_fol.rnd_fact(rng, 0.3)])
+        ngroups = rng.choice([1, 2])
+        d = [[[x, 0], fact()] for x in range(ngroups)]
+        ops = [[1, 1], [20, 0]]
+        grow = rng.randrange(ngroups)
+        ops += [[8, 0, [[[grow, 1], fact()]]], [1, 1], [21, 0]]                     # resized inside downward
+        if rng.random() < 0.5:
+            ops += [[2, 1, -1]]
+        for x in range(ngroups, ngroups + rng.choice([2, 3])):                      # new groups afterwards
+            ops += [[8, 0, [[[x, y], fact()] for y in range(rng.choice([1, 2, 2]))]]]
+        ops += [[1, 1], [20, 0], [21, 0], [2, 1, -1], [1, 1], [20, 0]]
+        out.append([50, kb, [], [OPEN, OPEN], [[0, d]], [q], ops])
+        meta.append({"nq": 1, "partial": True, "nested": False, "full": q[3] == 1})
+    return out, meta
+
+
 def gen_k50_nested_full(rng, n):
     """a fully quantified quantifier over a quantifier with a free variable, all four Forall/Exists combinations
     (Forall(x, Exists(y, f)), Exists(x, Forall(y, f)), and the same-kind nests that Forall(x, y, f) builds), random worlds"""
